@@ -73,7 +73,37 @@ def nav_programs():
     p4 = [g("G"), ch_a, {"k": "menu", "title": "board", "dep": Y, "visif": Y, "children": [ch_b]}, mk_config("OBS", "int", defaults=[{"v": C("2"), "c": S("M2")}, {"v": C("3"), "c": S("M3")}, {"v": C("0"), "c": Y}])]
     o4 = [["s", "G"], ["ch", "CH"], ["s", "M1"], ["s", "M2"], ["s", "M3"], ["s", "OBS"]]
     out.append({"prog": p4, "ord": o4, "label": "choice-twice-shared-option"})
+    # P5: options that ask for confirmation (`warning`): hidden, forced by set, selected, ordinary
+    u = g("U", "n")
+    u["sets"].append({"t": "WN", "v": C("4"), "c": Y, "str": False})
+    u["selects"].append({"t": "WS", "c": Y})
+
+    def w(e):
+        e["warning"] = "changing this is dangerous"
+        return e
+
+    p5 = [
+        g("G"),
+        u,
+        w(mk_config("WB", "bool", prompt=S("G"), defaults=[{"v": ["n"], "c": Y}])),
+        w(mk_config("WN", "int", prompt=Y, defaults=[{"v": C("3"), "c": Y}])),
+        w(g("WS", "n")),
+        w(g("WV", "n")),
+        w(mk_config("WH", "int", prompt=S("G"), defaults=[{"v": C("3"), "c": Y}])),
+    ]
+    o5 = [["s", n] for n in ("G", "U", "WB", "WN", "WS", "WV", "WH")]
+    out.append({"prog": p5, "ord": o5, "label": "warnings"})
     return out
+
+
+def front_change(state, node):
+    """SPACE / ENTER on a row as the front end handles it: an option with a `warning` asks first, the user says yes."""
+    from esp_menuconfig.model import ChangeResult
+
+    r = state.change_node(node)
+    if r == ChangeResult.NEEDS_WARNING:
+        r = state.force_change_node(node)
+    return r
 
 
 def structure(kconf, prog):
@@ -134,9 +164,9 @@ def drive(run, state, stub, nodes, idx, ev, paths):
         asg_before = tuple(item.assignable) if isinstance(item, kc.core.Symbol) else ()
         if e == "select":
             if not state.enter_menu(node):
-                state.change_node(node)
+                front_change(state, node)
         elif e == "toggle":
-            if state.change_node(node) == ChangeResult.NO_CHANGE:
+            if front_change(state, node) == ChangeResult.NO_CHANGE:
                 state.enter_menu(node)
         elif e == "setbool":
             state.set_sel_node_bool_val({"n": 0, "y": 2}[ev["v"]])
@@ -146,7 +176,7 @@ def drive(run, state, stub, nodes, idx, ev, paths):
             else:
                 state.restore_default(node)
         elif e == "input":
-            if isinstance(item, kc.core.Symbol) and item.orig_type != kc.BOOL and state.change_node(node) == ChangeResult.NEEDS_INPUT:
+            if isinstance(item, kc.core.Symbol) and item.orig_type != kc.BOOL and front_change(state, node) == ChangeResult.NEEDS_INPUT:
                 ok, _ = state.check_valid(item, ev["v"])
                 if ok:
                     stub.App._apply_input(stub, node, ev["v"])
@@ -304,6 +334,8 @@ def main(run):
                     import traceback
 
                     tb = traceback.extract_tb(e.__traceback__)
+                    if os.path.abspath(tb[-1].filename).startswith(os.path.dirname(os.path.dirname(os.path.abspath(__file__)))):
+                        raise MachineryFailure("the harness itself raised %s: %s at %s:%d" % (type(e).__name__, e, tb[-1].filename, tb[-1].lineno))
                     o = dict(obs[-1])
                     o.update(raised=True, exception="%s: %s @ %s" % (type(e).__name__, str(e)[:120], ["%s:%d %s" % (os.path.basename(fr.filename), fr.lineno, fr.name) for fr in tb[-2:]]), problem="", detail=[])
                     obs.append(o)
